@@ -19,6 +19,7 @@ type T struct {
 	Covers     []string
 	Obs        []string
 	allowPanic bool
+	tracked    []trackedRange
 }
 
 type stop struct{ why string }
@@ -78,6 +79,29 @@ func (t *T) TableFormula(ptr unsafe.Pointer, elemSize, count int, f func(i uint6
 	}
 	return true
 }
+
+// SameObject: do p and q point into the same allocation? In the engine this is
+// object identity in the memory model; natively buffers are compared by the
+// address ranges registered with Track.
+func (t *T) SameObject(p, q unsafe.Pointer) bool {
+	for _, r := range t.tracked {
+		lo, hi := uintptr(r.p), uintptr(r.p)+uintptr(r.n)
+		pin := uintptr(p) >= lo && uintptr(p) < hi
+		qin := uintptr(q) >= lo && uintptr(q) < hi
+		if pin && qin {
+			return true
+		}
+	}
+	return false
+}
+
+type trackedRange struct {
+	p unsafe.Pointer
+	n int
+}
+
+// Track registers a caller-owned buffer for native SameObject queries.
+func (t *T) Track(p unsafe.Pointer, n int) { t.tracked = append(t.tracked, trackedRange{p, n}) }
 
 // And / Or / Implies / Not: branch-free boolean connectives for harness
 // conditions (the engine builds one term instead of forking on each operand).
